@@ -120,13 +120,20 @@ class ProtocolHandler(abc.ABC):
             cmd_id, _, rx_schema = self.COMMANDS[name]
 
             future = asyncio.get_running_loop().create_future()
-            self._awaiting[self._seq] = (cmd_id, rx_schema, future)
+            seq = self._seq
+            self._awaiting[seq] = (cmd_id, rx_schema, future)
             self._seq = (self._seq + 1) % 256
 
-            await self._gw.send_data(data)
+            try:
+                await self._gw.send_data(data)
 
-            async with asyncio_timeout(EZSP_CMD_TIMEOUT):
-                return await future
+                async with asyncio_timeout(EZSP_CMD_TIMEOUT):
+                    return await future
+            finally:
+                # Do not leave a stale entry behind when the command times out, fails to send
+                # or is cancelled: a later frame with this sequence number answers no pending
+                # command and must reach the callbacks
+                self._awaiting.pop(seq, None)
 
     async def update_policies(self, policy_config: dict) -> None:
         """Set up the policies for what the NCP should do."""
